@@ -24,34 +24,68 @@ func init() {
 	workers["c06-classify"] = workerC06Classify
 }
 
-// c06Probes rebuilds rows and probe set of a dataset deterministically (shared by the orchestrator and the
-// classification child).
-func c06Probes(d c06Data, seedKey string, seed int64) ([]oracle.Row, []probe) {
+// c06Spec is what the classification child needs: the probes with their expected answers and one row per distinct
+// (column,value) pair (enough for the schema comparison). It is computed once per dataset by the orchestrator.
+type c06Spec struct {
+	SchemaRows []oracle.Row `json:"schema_rows"`
+	Probes     []c04Query   `json:"probes"`
+}
+
+var c06SpecMu sync.Mutex
+var c06SpecFiles = map[string]string{}
+
+// c06SpecFile computes (once) and stores the probe set of a dataset for the classification children.
+func c06SpecFile(r *vf.Run, d c06Data) string {
+	key := fmt.Sprintf("%s-%d-%v", d.id, d.rows, d.vals)
+	c06SpecMu.Lock()
+	defer c06SpecMu.Unlock()
+	if p, ok := c06SpecFiles[key]; ok {
+		return p
+	}
 	csv := gen.CSVWithValues(d.rows, d.vals)
 	rows := csv.Rows()
 	gds := &gen.Dataset{ID: d.id, Rows: rows}
 	gds.Index()
-	h := vf.NewDetachedRNG(seed, "C06", seedKey)
-	return rows, probeSet(h, gds, 300, 10)
+	nprobes := 300
+	if d.rows > 100000 {
+		nprobes = 80
+	}
+	var spec c06Spec
+	for _, p := range probeSet(r.RNG("probes/"+key), gds, nprobes, 10) {
+		spec.Probes = append(spec.Probes, c04Query{E: p.e, GB: p.gb, Want: p.a})
+	}
+	for c, vs := range gds.Vals {
+		for _, v := range vs {
+			spec.SchemaRows = append(spec.SchemaRows, oracle.Row{c: v})
+		}
+	}
+	b, _ := json.Marshal(spec)
+	path := filepath.Join(r.Scratch, "c06-spec-"+vf.Digest(key)+".json")
+	_ = os.WriteFile(path, b, 0o644)
+	c06SpecFiles[key] = path
+	return path
 }
 
 // workerC06Classify opens a post-crash file in a process of its own, so that a crash of OpenIndex or of a query on
 // a damaged file (SIGSEGV/SIGBUS on a truncated mmap, a bbolt page assertion) is attributed to that file.
-// args: path id rows vals(comma separated) seed
+// args: path spec-file
 func workerC06Classify(args []string) int {
-	var d c06Data
-	d.id = args[1]
-	fmt.Sscan(args[2], &d.rows)
-	for _, x := range strings.Split(args[3], ",") {
-		var v int
-		fmt.Sscan(x, &v)
-		d.vals = append(d.vals, v)
+	b, err := os.ReadFile(args[1])
+	if err != nil {
+		fmt.Fprintln(os.Stderr, err)
+		return 3
 	}
-	var seed int64
-	fmt.Sscan(args[4], &seed)
-	rows, ps := c06Probes(d, "probes/"+d.id, seed)
+	var spec c06Spec
+	if err := json.Unmarshal(b, &spec); err != nil {
+		fmt.Fprintln(os.Stderr, err)
+		return 3
+	}
+	var ps []probe
+	for i, q := range spec.Probes {
+		ps = append(ps, probe{id: fmt.Sprintf("p%d", i), e: q.E, gb: q.GB, a: q.Want})
+	}
 	r := vf.NewQuietRun("C06") // no scratch directory, no output: the verdict goes to the parent as JSON
-	cls := classifyOutput(r, "child", args[0], ps, rows, nil)
+	cls := classifyOutput(r, "child", args[0], ps, spec.SchemaRows, nil)
 	out, _ := json.Marshal(map[string]any{"class": cls, "violations": r.TakeViolations()})
 	fmt.Println(string(out))
 	return 0
@@ -62,11 +96,7 @@ func classifyInChild(r *vf.Run, caseID, path string, d c06Data, ctx map[string]a
 	if _, err := os.Stat(path); err != nil {
 		return "absent"
 	}
-	var vals []string
-	for _, v := range d.vals {
-		vals = append(vals, fmt.Sprint(v))
-	}
-	res := runChild(r, binPath("vcheck"), []string{"worker", "c06-classify", path, d.id, fmt.Sprint(d.rows), strings.Join(vals, ","), fmt.Sprint(r.Seed)}, childOpts{Timeout: 5 * time.Minute})
+	res := runChild(r, binPath("vcheck"), []string{"worker", "c06-classify", path, c06SpecFile(r, d)}, childOpts{Timeout: 5 * time.Minute})
 	w := map[string]any{"file": filepath.Base(path)}
 	for k, v := range ctx {
 		w[k] = v
@@ -391,8 +421,9 @@ func c06Strace(r *vf.Run) {
 	cases := []sc{{c06Data{"v2500", 2500, []int{2500}}, false}, {c06Data{"r3100", 3100, []int{13, 5}}, true},
 		// several MiB of index data (a copy or compaction of the finished file would need several transactions / many writes)
 		{c06Large(r), false}, {c06Large(r), true}}
+	cases = append(cases, sc{c06Dense(r), false})
 	if r.Thorough() {
-		cases = append(cases, sc{c06Data{"v1001", 1001, []int{1001}}, false}, sc{c06Data{"r2001", 2001, []int{1500, 3}}, true})
+		cases = append(cases, sc{c06Data{"v1001", 1001, []int{1001}}, false}, sc{c06Data{"r2001", 2001, []int{1500, 3}}, true}, sc{c06Dense(r), true})
 	}
 	// the CLI's temporary directory on another file system than the output (rename across file systems is a copy)
 	otherFS := filepath.Join(vf.Root(), ".scratch", fmt.Sprintf("c06-tmp-%d", os.Getpid()))
@@ -427,6 +458,12 @@ func c06Strace(r *vf.Run) {
 			}
 			args = append(args, in)
 			return runChild(r, "/usr/bin/strace", args, childOpts{Timeout: 5 * time.Minute, TmpDir: otherFS})
+		}
+		// engine 3b: only the sync / truncate / rename calls that touch the OUTPUT path (strace -P): these are the
+		// commit boundaries of whatever writes the output, however it gets there; few enough to sweep all of them
+		c06OutputSyncSweep(r, cid, dir, in, c.d, c.big, otherFS)
+		if c.d.id == "dense" && r.Quick() {
+			continue // the per-syscall sweep of this big input is left to the thorough tier
 		}
 		// full run: how many I/O syscalls are there?
 		flog := filepath.Join(dir, "full.strace")
@@ -543,7 +580,11 @@ func c06SizeKill(r *vf.Run) {
 		big bool
 	}
 	large := c06Large(r)
+	dense := c06Dense(r)
 	cases := []sc{{large, false}, {large, true}, {c06Data{"v2500", 2500, []int{2500}}, false}}
+	if r.Thorough() {
+		cases = append(cases, sc{dense, false}, sc{dense, true})
+	}
 	if r.Thorough() {
 		cases = append(cases, sc{c06Data{"r3100", 3100, []int{13, 5}}, true}, sc{c06Data{"wide", 40000, []int{40000, 40000, 20000, 9000}}, false}, sc{c06Data{"wide", 40000, []int{40000, 40000, 20000, 9000}}, true})
 	}
@@ -570,7 +611,9 @@ func c06SizeKill(r *vf.Run) {
 			return append(a, in)
 		}
 		full := filepath.Join(dir, "full.updog")
+		tFull := time.Now()
 		res := runChild(r, binPath("updog"), args(full), childOpts{Timeout: 5 * time.Minute, TmpDir: otherFS})
+		fullDur := time.Since(tFull)
 		st, err := os.Stat(full)
 		if res.Code != 0 || res.TimedOut || err != nil {
 			r.Inconclusive(cid + ": full run failed")
@@ -588,9 +631,23 @@ func c06SizeKill(r *vf.Run) {
 			// thresholds from "as soon as the file exists" up to just below the final size
 			fr[id] = float64(k) / float64(n)
 		}
+		// and kills after a fraction of the full run's duration: instants spread evenly over time, so that every phase
+		// is hit in proportion to how long it lasts (fr < 0 marks a time trigger)
+		nt := r.Pick(14, 60)
+		for k := 0; k < nt; k++ {
+			id := fmt.Sprintf("%s/time%02d", cid, k)
+			ids = append(ids, id)
+			fr[id] = -(float64(k) + 0.5) / float64(nt)
+		}
 		r.ForEach(ids, 4, func(id string) {
 			out := filepath.Join(dir, vf.Digest(id)+".updog")
 			threshold := int64(fr[id] * float64(final))
+			var killAfter time.Duration
+			if fr[id] < 0 {
+				threshold = 1 << 62
+				killAfter = time.Duration(-fr[id] * float64(fullDur))
+			}
+			started := time.Now()
 			cmd := newCmd(binPath("updog"), args(out), []string{"TMPDIR=" + firstNonEmpty(otherFS, r.Scratch)}, nil)
 			if err := cmd.Start(); err != nil {
 				r.Inconclusive(id + ": " + err.Error())
@@ -612,7 +669,17 @@ func c06SizeKill(r *vf.Run) {
 					return
 				default:
 				}
-				if st, err := os.Stat(out); err == nil && st.Size() >= threshold && (threshold > 0 || st.Size() >= 0) {
+				if killAfter > 0 && time.Since(started) >= killAfter {
+					killedAt = 0
+					if st, err := os.Stat(out); err == nil {
+						killedAt = st.Size()
+					}
+					_ = cmd.Process.Kill()
+					<-exited
+					r.Count("sizekill_time_triggered_kills", 1)
+					break poll
+				}
+				if st, err := os.Stat(out); err == nil && st.Size() >= threshold {
 					killedAt = st.Size()
 					_ = cmd.Process.Kill()
 					<-exited
@@ -649,4 +716,105 @@ func firstNonEmpty(a, b string) string {
 func c06Large(r *vf.Run) c06Data {
 	n := r.Pick(45000, 90000)
 	return c06Data{"large", n, []int{n, n / 3, 7000, 500, 40, 3}}
+}
+
+var straceSync = regexp.MustCompile(`^(\d+)\s+(fdatasync|fsync|ftruncate|rename|renameat|renameat2)\(`)
+
+func c06OutputSyncSweep(r *vf.Run, cid, dir, in string, d c06Data, big bool, tmpDir string) {
+	mode := "normal"
+	if big {
+		mode = "big"
+	}
+	run := func(n int, out, log string) childResult {
+		args := []string{"-f", "-P", out, "-o", log, "-e", "trace=fdatasync,fsync,ftruncate,rename,renameat,renameat2"}
+		if n > 0 {
+			args = append(args, "-e", fmt.Sprintf("inject=fdatasync,fsync,ftruncate,rename,renameat,renameat2:signal=KILL:when=%d", n))
+		}
+		args = append(args, binPath("updog"), "create", "-o", out)
+		if big {
+			args = append(args, "-b")
+		}
+		return runChild(r, "/usr/bin/strace", append(args, in), childOpts{Timeout: 5 * time.Minute, TmpDir: tmpDir})
+	}
+	count := func(log string) (total, maxPer int) {
+		b, _ := os.ReadFile(log)
+		per := map[string]int{}
+		for _, line := range strings.Split(string(b), "\n") {
+			if m := straceSync.FindStringSubmatch(line); m != nil && !strings.Contains(line, "unfinished") {
+				total++
+				per[m[1]]++
+			}
+		}
+		for _, v := range per {
+			if v > maxPer {
+				maxPer = v
+			}
+		}
+		return
+	}
+	flog := filepath.Join(dir, "sync-full.strace")
+	full := filepath.Join(dir, "sync-full.updog")
+	if res := run(0, full, flog); res.TimedOut || res.Code != 0 {
+		r.Inconclusive(cid + ": full run under strace -P failed")
+		return
+	}
+	os.Remove(full)
+	total, maxPer := count(flog)
+	r.Extra("output_sync_calls_in_full_run_"+d.id+"_"+mode, total)
+	if total == 0 {
+		r.Inconclusive(cid + ": no sync call on the output path seen")
+		return
+	}
+	// when=N counts per thread and the Go scheduler moves the writer between threads, so every N is tried a few times;
+	// the position actually reached is read back from the log
+	limit, reps := maxPer, 2
+	if r.Quick() && limit > 14 {
+		limit = 14
+	}
+	if r.Thorough() {
+		reps = 3
+		if limit > 200 {
+			limit = 200
+		}
+	}
+	var ids []string
+	for n := 1; n <= limit; n++ {
+		for rep := 0; rep < reps; rep++ {
+			ids = append(ids, fmt.Sprintf("%s/sync%d.%d", cid, n, rep))
+		}
+	}
+	r.ForEach(ids, 8, func(id string) {
+		var n, rep int
+		fmt.Sscanf(id[strings.LastIndex(id, "/sync")+5:], "%d.%d", &n, &rep)
+		out := filepath.Join(dir, fmt.Sprintf("sync-out-%d-%d.updog", n, rep))
+		log := filepath.Join(dir, fmt.Sprintf("sync-kill-%d-%d.strace", n, rep))
+		res := run(n, out, log)
+		if res.TimedOut {
+			hangVerdict(r, id, res, nil)
+			return
+		}
+		pos, _ := count(log)
+		lb, _ := os.ReadFile(log)
+		killed := straceKilled.Match(lb)
+		r.Eval(1)
+		if killed {
+			r.Cover("output_sync_kill_positions_"+mode, fmt.Sprintf("%s@%d", d.id, pos))
+			r.Count("output_sync_kills_"+mode, 1)
+		}
+		cls := classifyInChild(r, id, out, d, map[string]any{"engine": "strace-sigkill-at-output-sync", "mode": mode, "dataset": d.id, "when": n, "sync_calls_on_output_before_death": pos, "sync_calls_on_output_in_full_run": total, "killed": killed})
+		r.Count("class_"+cls, 1)
+		r.Distinct(fmt.Sprintf("%s@%d", id, pos))
+		if !killed && cls != "accepted-complete" && cls != "wrong" && cls != "crash" && cls != "panic" {
+			r.Violation(id, "final-not-accepted", map[string]any{"class": cls, "explanation": "the command was not killed and exited, but its output is not a complete index"})
+		}
+		os.Remove(out)
+		os.Remove(log)
+	})
+}
+
+// c06Dense: few values, many rows: more than 4 MiB of serialised bitmaps in a handful of keys (a copy of the finished
+// data in bounded transactions needs several of them, although the writer itself commits only once).
+func c06Dense(r *vf.Run) c06Data {
+	n := r.Pick(170000, 320000)
+	return c06Data{"dense", n, []int{16, 15, 14, 13, 12, 11, 10, 9, 16, 15, 14, 13, 12, 11, 10, 9}}
 }
